@@ -37,42 +37,57 @@ Proof.
   rewrite Nat2Z.id. reflexivity.
 Qed.
 
-Lemma apply_layout_prefix H W sh w lh lw :
-  (Z.of_nat (Nat.max H W) <= i64_max)%Z -> Rep H W sh w ->
-  0 < lh <= sh_height sh -> 0 < lw <= sh_width sh ->
-  apply_layout sh 0 0 lh lw = view sh (Some (0, lh)) (Some (0, lw)).
+Lemma py_resolve_range dim a n : 0 < n -> a + n <= dim ->
+  py_resolve dim (Rng (Z.of_nat a) (Z.of_nat (a + n))) = Some (a, a + n).
 Proof.
-  intros Hmax Hrep Hh Hw. unfold apply_layout. cbn [Nat.add Z.of_nat].
+  intros Hn Hd. unfold py_resolve, py_slice, py_bound.
+  destruct (Z.of_nat a <? 0)%Z eqn:E0; [apply Z.ltb_lt in E0; lia|].
+  destruct (Z.of_nat (a + n) <? 0)%Z eqn:E1; [apply Z.ltb_lt in E1; lia|].
+  replace (Z.min (Z.of_nat a) (Z.of_nat dim)) with (Z.of_nat a) by lia.
+  replace (Z.min (Z.of_nat (a + n)) (Z.of_nat dim)) with (Z.of_nat (a + n)) by lia.
+  destruct (Z.of_nat a <? Z.of_nat (a + n))%Z eqn:E2; [|apply Z.ltb_ge in E2; lia].
+  rewrite !Nat2Z.id. reflexivity.
+Qed.
+
+(* the rectangle (pr, pc, lh, lw) of a surface, when it lies inside *)
+Definition rect_view (sh : shape) (pr pc lh lw : nat) : shape := view sh (Some (pr, pr + lh)) (Some (pc, pc + lw)).
+
+Lemma apply_layout_rect H W sh w pr pc lh lw :
+  (Z.of_nat (Nat.max H W) <= i64_max)%Z -> Rep H W sh w ->
+  0 < lh -> pr + lh <= sh_height sh -> 0 < lw -> pc + lw <= sh_width sh ->
+  apply_layout sh pr pc lh lw = rect_view sh pr pc lh lw.
+Proof.
+  intros Hmax Hrep Hh0 Hh Hw0 Hw. unfold apply_layout, rect_view.
   pose proof (rep_dims _ _ _ _ Hrep) as [Hdh Hdw]. pose proof Hrep as (Eh & Ew & _).
   rewrite !resolve_py; try (rewrite ?Eh, ?Ew; lia).
-  - rewrite !py_resolve_prefix by lia. reflexivity.
-  - cbn. unfold in_ity. cbn. apply andb_true_iff; split; [apply Z.leb_le|apply Z.leb_le]; unfold i64_max in *; lia.
-  - cbn. unfold in_ity. cbn. apply andb_true_iff; split; [apply Z.leb_le|apply Z.leb_le]; unfold i64_max in *; lia.
+  - rewrite !py_resolve_range by lia. reflexivity.
+  - cbn. unfold in_ity. cbn. apply andb_true_iff; split; apply andb_true_iff; split; apply Z.leb_le; unfold i64_max in *; lia.
+  - cbn. unfold in_ity. cbn. apply andb_true_iff; split; apply andb_true_iff; split; apply Z.leb_le; unfold i64_max in *; lia.
 Qed.
 
-Lemma view_prefix_dims sh lh lw :
-  sh_height (view sh (Some (0, lh)) (Some (0, lw))) = lh /\ sh_width (view sh (Some (0, lh)) (Some (0, lw))) = lw.
+Lemma rect_view_dims sh pr pc lh lw :
+  sh_height (rect_view sh pr pc lh lw) = lh /\ sh_width (rect_view sh pr pc lh lw) = lw.
 Proof. cbn. lia. Qed.
 
-Lemma view_prefix_offset sh lh lw r c :
-  offset (view sh (Some (0, lh)) (Some (0, lw))) r c = offset sh r c.
-Proof. unfold offset. cbn. unfold offset. lia. Qed.
+Lemma rect_view_offset sh pr pc lh lw r c :
+  offset (rect_view sh pr pc lh lw) r c = offset sh (pr + r) (pc + c).
+Proof. unfold rect_view, offset. cbn. unfold offset. lia. Qed.
 
-Lemma view_prefix_in_view sh lh lw k : lh <= sh_height sh -> lw <= sh_width sh ->
-  in_view (view sh (Some (0, lh)) (Some (0, lw))) k -> in_view sh k.
+Lemma rect_view_in_view sh pr pc lh lw k : pr + lh <= sh_height sh -> pc + lw <= sh_width sh ->
+  in_view (rect_view sh pr pc lh lw) k -> in_view sh k.
 Proof.
-  intros Hh Hw (r & c & Hr & Hc & E). destruct (view_prefix_dims sh lh lw) as [Eh Ew].
-  rewrite Eh in Hr. rewrite Ew in Hc. rewrite view_prefix_offset in E.
-  exists r, c. repeat split; auto; lia.
+  intros Hh Hw (r & c & Hr & Hc & E). destruct (rect_view_dims sh pr pc lh lw) as [Eh Ew].
+  rewrite Eh in Hr. rewrite Ew in Hc. rewrite rect_view_offset in E.
+  exists (pr + r), (pc + c). repeat split; auto; lia.
 Qed.
 
-Lemma view_prefix_good sh lh lw len : Good sh len -> lh <= sh_height sh -> lw <= sh_width sh ->
-  Good (view sh (Some (0, lh)) (Some (0, lw))) len.
+Lemma rect_view_good sh pr pc lh lw len : Good sh len -> pr + lh <= sh_height sh -> pc + lw <= sh_width sh ->
+  Good (rect_view sh pr pc lh lw) len.
 Proof.
-  intros [Hb Hi] Hh Hw. destruct (view_prefix_dims sh lh lw) as [Eh Ew]. split.
-  - intros r c Hr Hc. rewrite Eh in Hr. rewrite Ew in Hc. rewrite view_prefix_offset. apply Hb; lia.
+  intros [Hb Hi] Hh Hw. destruct (rect_view_dims sh pr pc lh lw) as [Eh Ew]. split.
+  - intros r c Hr Hc. rewrite Eh in Hr. rewrite Ew in Hc. rewrite rect_view_offset. apply Hb; lia.
   - intros r c r' c' Hr Hc Hr' Hc' E. rewrite Eh in Hr, Hr'. rewrite Ew in Hc, Hc'.
-    rewrite !view_prefix_offset in E. apply Hi; auto; lia.
+    rewrite !rect_view_offset in E. destruct (Hi (pr + r) (pc + c) (pr + r') (pc + c')); try lia.
 Qed.
 
 Lemma frame_weaken sh sh' d d' : (forall k, in_view sh' k -> in_view sh k) -> Frame sh' d d' -> Frame sh d d'.
